@@ -1,0 +1,9 @@
+//go:build verif
+
+package coregex
+
+import "github.com/coregx/coregex/meta"
+
+// VerifEngine exposes the underlying meta.Engine to verification harnesses.
+// It exists only under the "verif" build tag.
+func (r *Regex) VerifEngine() *meta.Engine { return r.engine }
